@@ -894,7 +894,7 @@ let judge_apply4 f =
      let r = api_apply4 g (bytes_of_string indent) ops (bytes_of_string doc) in
      let impl_ok = status = "ok" in
      let model_ok = (match r with Out4 _ -> true | _ -> false) in
-     add "FID" (if impl_ok = model_ok && (not impl_ok || (match r with Out4 b -> (match den_s out, den_s (string_of_bytes b) with Some x, Some y -> jeq x y && jeq y x | _ -> false) | _ -> false)) then P else D "model differs");
+     add "FID" (if impl_ok = model_ok && (not impl_ok || (match r with Out4 b -> (string_of_bytes b = out) || (match den_s out, den_s (string_of_bytes b) with Some x, Some y -> jeq x y && jeq y x | _ -> false) | _ -> false)) then P else D "model differs");
      (* C12 in the legacy package: the package variable; null counted 0 or 4 (see judge_apply) *)
      let impl_cl = String.length errbits > 2 && errbits.[2] = '1' in
      let cl_under z = (match api_apply4 { g with g_nullsz = Some (z_of_int z) } (bytes_of_string indent) ops (bytes_of_string doc) with
@@ -919,6 +919,9 @@ let judge_apply4 f =
                                 || contains patch "<" || contains patch ">" || contains patch "&") in
      let dom = (match tdoc with
          | Some t -> root_container t && tnodup t && in_domain_C01 ops && spelled_plainly && limit = 0
+                     (* no copy of a null that the patch itself wrote: the copy is a raw text null, which later
+                        operations walk through like an empty object (V4NullWalk.v; outside the RFC reference) *)
+                     && api_no_null_copy4 g ops (bytes_of_string doc)
                      && List.for_all (fun (op : operation) ->
                          let path = (match op_str op (bytes_of_string "path") with Ok0 p -> p | _ -> []) in
                          let from = (match op_str op (bytes_of_string "from") with Ok0 p -> p | _ -> []) in
